@@ -310,3 +310,9 @@ static inline v8u32 llvm_x86_avx2_phadd_d(v8u32 a, v8u32 b) { v8u32 r = {{a.e[0]
 #ifdef NEED_llvm_x86_avx2_phadd_w
 static inline v16u16 llvm_x86_avx2_phadd_w(v16u16 a, v16u16 b) { v16u16 r; for (int l = 0; l < 2; ++l) for (int i = 0; i < 4; ++i) { r.e[8 * l + i] = (u16)(a.e[8 * l + 2 * i] + a.e[8 * l + 2 * i + 1]); r.e[8 * l + 4 + i] = (u16)(b.e[8 * l + 2 * i] + b.e[8 * l + 2 * i + 1]); } return r; }
 #endif
+#ifdef NEED_llvm_x86_sse3_ldu_dq
+static inline v16u8 llvm_x86_sse3_ldu_dq(u8 *p) { v16u8 r; for (int i = 0; i < 16; ++i) r.e[i] = p[i]; return r; }
+#endif
+#ifdef NEED_llvm_x86_avx_ldu_dq_256
+static inline v32u8 llvm_x86_avx_ldu_dq_256(u8 *p) { v32u8 r; for (int i = 0; i < 32; ++i) r.e[i] = p[i]; return r; }
+#endif
